@@ -41,7 +41,7 @@ import (
 	"pgregory.net/rapid"
 )
 
-func TestMain(m *testing.M) { vh.Main(m) }
+func TestMain(m *testing.M)   { vh.Main(m) }
 func TestReplay(t *testing.T) { vh.Replay(t) }
 func TestCorpus(t *testing.T) { vh.Corpus(t) }
 
@@ -1070,8 +1070,52 @@ func TestSlotSweep(t *testing.T) {
 	if vh.Thorough() {
 		asms = append(asms, mk("b2", false, true), mk("b1", false, false))
 	}
+	// every section name in EITHER version (files come from anywhere: a "manifest" in a b2 file, a
+	// "primary" in a b1 file), and one section in turn made LARGE compared with everything else: a
+	// reader that loses its place over a section is off by that section's length, and only a large
+	// miss leaves the spare capacity behind the data it has read (where it goes unnoticed).
+	mkAll := func(ver, big string) refbundle.Asm {
+		a := mk(ver, true, false)
+		long := strings.Repeat("m", 2600)
+		secs := []refbundle.AsmSection{{Name: "index", Kind: "index", Decoy: -1}}
+		add := func(name, kind, text string, rawLen int) {
+			sec := refbundle.AsmSection{Name: name, Kind: kind, Text: text, RawLen: rawLen, Decoy: -1}
+			if big == name {
+				if kind == "raw" {
+					sec.RawLen = 2600
+				} else if text != "" {
+					sec.Text = text + long
+				}
+			}
+			secs = append(secs, sec)
+		}
+		add("future", "raw", "", 7)
+		add("manifest", "manifest", "https://a.example/m", 0)
+		add("primary", "primary", "https://a.example/a", 0)
+		add("signatures", "signatures", "", 0)
+		// the large section directly in front of the responses: what is read after a lost place is
+		// then the responses section and the index entries that point into it, not another section
+		for i := range secs {
+			if secs[i].Name == big {
+				sec := secs[i]
+				secs = append(append(secs[:i:i], secs[i+1:]...), sec)
+				break
+			}
+		}
+		a.Sections = append(secs, refbundle.AsmSection{Name: "responses", Kind: "responses", Decoy: -1})
+		return a
+	}
+	nBase := len(asms)
+	for _, ver := range []string{"b1", "b2"} {
+		for _, big := range []string{"", "future", "manifest", "primary"} {
+			if !vh.Thorough() && !(ver == "b2" && big != "primary") && !(ver == "b1" && big == "primary") {
+				continue
+			}
+			asms = append(asms, mkAll(ver, big))
+		}
+	}
 	n := 0
-	for _, a := range asms {
+	for ai, a := range asms {
 		file, slots := refbundle.Assemble(&a)
 		for _, sl := range slots {
 			for _, v := range hostile {
@@ -1091,6 +1135,22 @@ func TestSlotSweep(t *testing.T) {
 			n++
 			if !prop.One(t, Case{Target: "bundle.Read", Input: file[:k], Origin: "slot-sweep"}) {
 				return
+			}
+		}
+		// two fields moved TOGETHER by the same amount (a section length and an index entry that
+		// stay consistent with each other while both leave the file): a small step, one that still
+		// fits the spare capacity of a freshly read buffer, and one beyond it
+		if ai >= nBase {
+			for i := range slots {
+				for j := i + 1; j < len(slots); j++ {
+					for _, d := range []uint64{1, 40, 700, 2650} {
+						n++
+						in := refbundle.Patch(refbundle.Patch(file, slots[i], slots[i].Value+d), slots[j], slots[j].Value+d)
+						if !prop.One(t, Case{Target: "bundle.Read", Input: in, Origin: "slot-sweep-pair"}) {
+							return
+						}
+					}
+				}
 			}
 		}
 	}
